@@ -9,13 +9,96 @@ import norm_common as nc
 
 ID = "C06"
 LEAN_MODULE = "UralModel.Props.C06"
-THEOREMS = []
-TABLE_OBLIGATIONS = []
-RULE = ""
-EXHAUSTIVE = {}
-TRUSTED = []
-ASSUMPTIONS = []
-UNPROVED = ""
+THEOREMS = [
+    "Ural.Props.C06.fp_factor",
+    "Ural.Props.C06.fp_of_norm_eq",
+    "Ural.Props.C06.fp_of_normParts_eq",
+    "Ural.Props.C06.lower_flipCase",
+    "Ural.Props.C06.fp_case_insensitive",
+    "Ural.Props.C06.fp_case_flip",
+    "Ural.Props.C06.fp_lower_closed",
+    "Ural.Props.C06.fp_port_irrelevant",
+    "Ural.Props.C06.fp_shape",
+    "Ural.Props.C06.fp_no_scheme",
+    "Ural.Props.C06.fp_shape_string",
+    "Ural.Props.C06.fp_lang_label_partial",
+    "Ural.Props.C06.fullLangLabel_fails",
+    "Ural.Props.C06.fp_lang_not_stripped",
+    "Ural.Props.C06.strip_lang_iff",
+    "Ural.Props.C06.fp_gl_hl",
+    "Ural.Props.C06.fp_gl_hl_fingerprint",
+    "Ural.Props.C06.fp_suffix_swap_partial",
+    "Ural.Props.C06.fp_suffix_swap_plain",
+    "Ural.Props.C06.fullSuffixSwap_fails",
+    "Ural.Props.C06.ccLaws_isCountry",
+    "Ural.Props.C06.accLaws_py",
+    "Ural.Props.C06.walkLaws_py",
+]
+TABLE_OBLIGATIONS = [
+    "Ural.Props.C06.langQueryKeys_eq",
+    "Ural.Props.C06.lang_keys_in_no_combo",
+    "Ural.Props.C06.isoCountries_upper",
+]
+RULE = (
+    "A case is (base URL string u, one transformation T of the fingerprint-irrelevant family, strip_suffix, platform_aware). "
+    "T rewrites one textually located piece of the string (harness/c06_common.py): ASCII/Unicode case flips of the whole string or of "
+    "one component (scheme, userinfo, host, path, query, fragment, the hex digits of escapes); port set to None / 1..65535; a label "
+    "prepended to the host (every two-letter label, i.e. the whole ISO set and its whole complement, xx-yy pairs with good and bad "
+    "halves, look-alikes); a gl / hl item (any case, several values) inserted at every position of the query; the public suffix "
+    "swapped among bundled suffixes of 1-3 labels; and a sample of what normalize_url documents as irrelevant (scheme, userinfo, "
+    "www/m/mobile/amp labels, default port, trailing slash, index page, fragment, tracking items, item order, &amp;, escape "
+    "spelling, whitespace, control characters). urllib is asked whether the rewrite did what it names (else the case is dropped). "
+    "Corpus first (minimal inputs of D25/7b49e59, e39f899, bae86f1, 2a52471, 0f0c826, the statement's triple, the witnesses of the "
+    "known findings), then the enumerated part, then seeded random bases (norm_common.random_url, possibly transformed once already) "
+    "x random T. Both u and T(u) go through the Lean model three ways (second pass with the real parser's accessor / walk answers "
+    "shipped; with the hand models pyNetlocAcc / pyWalkHost plugged in; the two hand models alone on the real intermediates) and are "
+    "compared with fingerprint_url(unsplit=False) and fingerprint_url(). Oracle, on the implementation only: fingerprint(T(u)) == "
+    "fingerprint(u) (tuple and string) and the shape clause on both. Readings (each demands less): base URLs = URLs the parser "
+    "accepts (fingerprint_url raises on the others; not flagged); a language label is judged on the host normalize_url leaves, T "
+    "applies where the rest of the host is normalized as without the label and does not itself start with a language label (one "
+    "label is stripped); host-keyed redirect rules (ampproject / marfeel / youtube) belong to infer_redirection's notion of which "
+    "URL is meant (port / suffix T apply where they do not fire); items are not inserted into redirect carriers nor in front of an "
+    "item starting with 'amp;' (normalize_url's documented '&amp;' repair would re-read it); a suffix swap applies when both "
+    "suffixes are the public suffix (oracle's own PSL algorithm over the bundled list) of the given and of the normalized host and "
+    "the rest of the host is normalized alike; a C04-family T is demanded wherever normalize_url itself returns the same string for "
+    "u and T(u). Negative half: a label that is not a code, or after which one label remains, must still lead the result's host. "
+    "Non-trivial = T(u) != u; distinct = distinct (u, T, options)."
+)
+EXHAUSTIVE = {
+    "quick": "all 676 two-letter labels (the 249 ISO codes and the 427 non-codes) on 4 hosts; gl/hl/GL/hL x 7 values at every "
+    "position of 12 query shapes; ports None,1,80,443,8080,65535,... on 41 bases x 4 option pairs, every 97th port 1..65535 on one "
+    "base; all ordered pairs of 14 suffixes (1-3 labels, incl. private and 'www.ro') x 6 domain shapes; 10 case components on 56 bases",
+    "thorough": "as quick, plus every port 1..65535 on one base and every 7th on a second (both option bits on), the two-letter "
+    "sweep with strip_suffix on every host, 6000 xx-yy pairs, 40000 random suffix pairs from the whole bundled list",
+}
+TRUSTED = [
+    "Lean kernel; axioms of every listed theorem within {propext, Classical.choice, Quot.sound} (audited)",
+    "the hand-written model (Model/Normalize.lean, Model/Fingerprint.lean, Model/C06Netloc.lean) is the code: tied by differential "
+    "execution of both spellings of every case, and by regenerated tables (ISO set, LANG_QUERY_KEYS, combo tables, regexes)",
+    "urlsplit and the SplitResult accessors on the *input* are CPython (the harness ships the Parsed record): how the parser maps "
+    "'host:port', 'label.host', '...&gl=x&...' to components is not proved (oracle + correspondence + c06_common.applies)",
+    "the accessors on the netloc normalize_url assembled, and safe_urlsplit(host).hostname, are hand models of CPython 3.12.1 "
+    "(pyNetlocAcc, pyWalkHost) for which AccLaws / WalkLaws are proved; _checknetloc (NFKC of a non-ASCII netloc) is not modelled",
+    "attempt_to_decode_idna is a parameter (puny), arbitrary in every theorem; the platform_aware branch is an abstract string "
+    "rewriting before parsing (theorems on Parsed hold after it; the commutation of T with it is checked by the oracle only)",
+    "str.lower / str.upper beyond ASCII are the identity in the model (generators avoid the other characters for the model lines; "
+    "the oracle runs on everything)",
+]
+ASSUMPTIONS = [
+    "AccLaws E.netlocAcc (proved for pyNetlocAcc), WalkLaws E.walkHost (proved for pyWalkHost), CcLaws E.isCC (proved for the "
+    "regenerated ISO-3166 table): hypotheses of the theorems, not axioms",
+    "HostSafe: the host normalize_url leaves has none of '@', '[', ']' (CPython's hostname never has; puny is arbitrary so it is stated)",
+]
+UNPROVED = (
+    "fp_lang_label_partial: side conditions hamp (rest starts with 'amp-'), hsingle (rest starts with a second language label), hdf "
+    "(per-domain filter chosen alike) - each excluded region really differs (witness examples, fullLangLabel_fails). "
+    "fp_suffix_swap_partial: the suffix is judged after the language label is stripped and hdf - excluded regions really differ "
+    "(KF-C06-2, KF-C06-3, fullSuffixSwap_fails). Port / label / item / suffix theorems are about Parsed records: the bridging from "
+    "the string transformation to the component transformation is CPython, and under platform_aware=True the commutation of T with "
+    "the facebook/youtube rewriting is explored by the oracle, not proved. Escaped capitals: since e39f899 normalize_url(lowercase="
+    "True) folds the case right after unescaping; the equation fp('/%41') = fp('/a') is covered by the oracle (C04 family) and by "
+    "fp_lower_closed (result closed under lower), not by a general theorem."
+)
 
 # ---------------------------------------------------------------------------------------
 # tables the property text refers to, read from the imported package on every run
@@ -271,17 +354,45 @@ def _urls(case):
     return [x for x in out if nc.in_model_alphabet(x)]
 
 
+def _lines(x, ss, pa):
+    """the second pass three ways: with the accessor / walk answers of the real parser shipped
+    (fp_parts, Driver/Norm), with the hand models of them plugged in (c06_fp_parts), and the two
+    hand models alone on the real intermediates (c06_acc, c06_walk)"""
+    out = nc.fp_ops(x, ss, pa)
+    if not out:
+        return out
+    line = out[0]
+    own = {k: v for k, v in line.items() if k not in ("acc", "walk")}
+    own["f"] = "c06_fp_parts"
+    out.append(own)
+    for netloc in line["acc"]:
+        out.append({"f": "c06_acc", "netloc": netloc})
+    for host in line["walk"]:
+        out.append({"f": "c06_walk", "host": host})
+    return out
+
+
 def ops(case):
     out = []
     for x in _urls(case):
-        out.extend(nc.fp_ops(x, case["ss"], case["pa"]))
+        out.extend(_lines(x, case["ss"], case["pa"]))
     return out
 
 
 def impl(case):
     out = []
     for x in _urls(case):
-        out.extend(nc.fp_impl(x, case["ss"], case["pa"]))
+        lines = _lines(x, case["ss"], case["pa"])
+        if not lines:
+            continue
+        real = nc.fp_impl(x, case["ss"], case["pa"])
+        out.extend(real)  # fp_parts
+        out.extend(real)  # c06_fp_parts
+        line = lines[0]
+        for netloc in line["acc"]:
+            out.append(line["acc"][netloc])
+        for host in line["walk"]:
+            out.append(line["walk"][host])
     return out
 
 
